@@ -483,6 +483,10 @@ impl Ignore {
                     .last()
                     .map_or(self.0.dir.as_path(), |ig| ig.0.dir.as_path());
                 let path_prefix = match strip_prefix("./", dirpath) {
+                    // `path` never starts with `./` (see `matched`), so a
+                    // walk started in `.` has nothing to strip. (And `.` must
+                    // not be taken for a prefix of a name like `.foo`.)
+                    None if dirpath == Path::new(".") => Path::new(""),
                     None => dirpath,
                     Some(stripped_dot_slash) => stripped_dot_slash,
                 };
